@@ -64,14 +64,6 @@ Definition dec_entry {K A} (fk : sx -> option K) (fa : sx -> option A) (a : sx) 
   | _ => None
   end.
 
-Record tables := mkT {
-  t_vers : list (vkey * res version);
-  t_lists : list (pkey * res (list version));
-  t_reqs : list (vkey * res (list reqver));
-  t_simple : list (bytes * Z);
-  t_match : list ((bytes * bytes) * bool);
-  t_less : list ((vkey * vkey) * bool) }.
-
 Definition dec_simple (a : sx) : option (bytes * Z) :=
   match a with SL [SB r; SI s] => Some (r, s) | _ => None end.
 Definition dec_match (a : sx) : option ((bytes * bytes) * bool) :=
@@ -94,30 +86,6 @@ Definition dec_tables (a : sx) : option tables :=
       end
   | _ => None
   end.
-
-Definition bb_dec : forall a b : bytes * bytes, {a = b} + {a <> b}.
-Proof. decide equality; apply bytes_dec. Defined.
-Definition vv_dec : forall a b : vkey * vkey, {a = b} + {a <> b}.
-Proof. decide equality; apply vkey_dec. Defined.
-
-Definition tc_version (t : tables) (k : vkey) : res version :=
-  match aget vkey_dec (t_vers t) k with Some r => r | None => Err EMissing end.
-Definition tc_versions (t : tables) (k : pkey) : res (list version) :=
-  match aget pkey_dec (t_lists t) k with Some r => r | None => Err EMissing end.
-Definition tc_requirements (t : tables) (k : vkey) : res (list reqver) :=
-  match aget vkey_dec (t_reqs t) k with Some r => r | None => Err EMissing end.
-Definition tc_simple (t : tables) (r : bytes) : res bool :=
-  match aget bytes_dec (t_simple t) r with
-  | Some s => if (s =? 2)%Z then Err EOther else Ok (s =? 1)%Z
-  | None => Err EMissing
-  end.
-Definition tc_match (t : tables) (r v : bytes) : bool :=
-  match aget bb_dec (t_match t) (r, v) with Some b => b | None => false end.
-Definition tc_less (t : tables) (a b : vkey) : bool :=
-  match aget vv_dec (t_less t) (a, b) with Some x => x | None => false end.
-
-Definition table_resolve (t : tables) (fuel : nat) (root : vkey) : res graph :=
-  resolve (tc_version t) (tc_versions t) (tc_requirements t) (tc_simple t) (tc_match t) (tc_less t) fuel root.
 
 (* ---- observable *)
 Definition sx_vk (k : vkey) : sx :=
@@ -152,6 +120,20 @@ Definition run_MavenRes (kind : bytes) (a : sx) : option sx :=
           | SL [r; t] =>
               match dec_vk r, dec_tables t with
               | Some root, Some tb => sx_graph (table_resolve tb maven_fuel root)
+              | _, _ => badcase
+              end
+          | _ => badcase
+          end)
+  else if bytes_eqb kind [109;97;118;101;110;95;114;101;113;115] (* maven_reqs *) then
+    (* the requirement lists at the end of resolve, for the classification of oracle hits *)
+    Some (match a with
+          | SL [r; t] =>
+              match dec_vk r, dec_tables t with
+              | Some root, Some tb =>
+                  SL (map (fun kv => SL [SB (pk_name (mk_pk (fst kv))); SB (mk_cls (fst kv)); SB (mk_typ (fst kv));
+                                         SL (map (fun v => SB (vk_ver v)) (snd kv))])
+                          (fst (resolve_full (tc_version tb) (tc_versions tb) (tc_requirements tb) (tc_simple tb)
+                                             (tc_match tb) (tc_less tb) maven_fuel root)))
               | _, _ => badcase
               end
           | _ => badcase
